@@ -12,6 +12,7 @@ import (
 	"strings"
 
 	"verif/harness/allocsim"
+	"verif/harness/engines/c13"
 	"verif/harness/sim"
 	"verif/harness/tape"
 	"verif/harness/wagen"
@@ -288,14 +289,116 @@ func (e *Engine11) Run(t *tape.Tape, keep bool) *sim.Result {
 
 // ---------------------------------------------------------------- C12
 
-type Engine12 struct{ base }
+type Engine12 struct {
+	base
+	mapDrv map[int]*wab.Compiled
+}
 
-func New12() sim.Engine { return &Engine12{base{block: 48}} }
+func New12() sim.Engine { return &Engine12{base: base{block: 48}} }
+
+// mapLoop: the C12 conservation check on the C13 map drivers: a loop body of map
+// operations (every key kind, including struct / string / interface keys that
+// hold run-time strings) followed by "discard every map", iterated; the live
+// heap must not grow.
+func (e *Engine12) mapLoop(t *tape.Tape, keep bool, res *sim.Result, log *tape.Log) *sim.Result {
+	id := int(tape.Mix(e.seed^0xC12, (e.run/(16*e.block))*16+e.run%16) % uint64(c13.NDrivers()))
+	if e.mapDrv == nil {
+		e.mapDrv = map[int]*wab.Compiled{}
+	}
+	c := e.mapDrv[id]
+	src, desc := c13.DriverSource(id)
+	if c == nil {
+		var err error
+		c, err = wab.Build("mapdriver.wa", src)
+		if err != nil {
+			res.Trouble = "map driver " + desc + ": " + err.Error()
+			return res
+		}
+		e.mapDrv[id] = c
+		e.built++
+	}
+	nb := t.Range(1, 30)
+	pool := []int{4, 16, 200}[t.Draw(3)]
+	type mop struct{ kind, slot, key, val int }
+	body := make([]mop, nb)
+	var desc2 []string
+	names := []string{"put", "put", "del", "get", "get1", "rng"}
+	for i := range body {
+		body[i] = mop{t.Draw(len(names)), t.Draw(c13.Slots), t.Draw(pool), t.Draw(1000)}
+		desc2 = append(desc2, fmt.Sprintf("%s(s%d,k%d,v%d)", names[body[i].kind], body[i].slot, body[i].key, body[i].val))
+	}
+	iters := []int{8, 64}[t.Draw(2)]
+	sm := &sample{Kinds: []string{desc}, Mode: "plain (accounting only)", Ops: desc2, Note: fmt.Sprintf("map loop body of %d operations, then discard every map; %d iterations", nb, iters)}
+	res.Sample = sm
+	log.Add(fmt.Sprintf("mapdriver=%s body=%d iters=%d pool=%d", desc, nb, iters, pool))
+	host := allocsim.New(allocsim.Plain, t, c.HeapBase, 0)
+	in, err := c.Instantiate(host)
+	if err != nil {
+		res.Trouble = "instantiate: " + err.Error()
+		return res
+	}
+	defer in.Close()
+	if _, err := in.Call("setup"); err != nil {
+		res.Trouble = "setup: " + firstLine(err.Error())
+		return res
+	}
+	var refBlocks int
+	var refBytes uint64
+	for k := 1; k <= iters; k++ {
+		for _, o := range body {
+			var err error
+			switch o.kind {
+			case 0, 1:
+				_, err = in.Call("put", uint64(o.slot), uint64(o.key), uint64(o.val))
+			case 2:
+				_, err = in.Call("del", uint64(o.slot), uint64(o.key))
+			case 3:
+				_, err = in.Call("get", uint64(o.slot), uint64(o.key))
+			case 4:
+				_, err = in.Call("get1", uint64(o.slot), uint64(o.key))
+			default:
+				_, err = in.Call("rng", uint64(o.slot))
+			}
+			if err != nil {
+				res.Trouble = "map driver traps: " + firstLine(err.Error()) + " (outside C12)"
+				return res
+			}
+			res.Steps++
+		}
+		if _, err := in.Call("dropall"); err != nil {
+			res.Trouble = "dropall: " + firstLine(err.Error())
+			return res
+		}
+		blocks, bytes := len(host.Live), host.LiveBytes
+		if k == 2 {
+			refBlocks, refBytes = blocks, bytes
+		}
+		if k > 2 && (blocks != refBlocks || bytes != refBytes) {
+			log.Add("VIOLATION leak " + desc)
+			res.Violation = &sim.Violation{Class: "leak", Signature: "leak:map loop:" + desc,
+				Detail: fmt.Sprintf("%s: live heap after iteration 2: %d blocks / %d bytes; after iteration %d: %d blocks / %d bytes although every map is discarded at the end of each iteration. body: %s", desc, refBlocks, refBytes, k, blocks, bytes, strings.Join(desc2, "; "))}
+			res.Digest = log.Digest()
+			sm.Log = log.Lines
+			return res
+		}
+	}
+	res.Probes["map_loop_runs"]++
+	res.Probes["mallocs"] += host.Mallocs
+	res.Probes["frees"] += host.Frees
+	res.States = append(res.States, "map/"+desc)
+	res.Nontrivial = host.Frees > 0
+	res.Digest = log.Digest()
+	sm.Log = log.Lines
+	return res
+}
 
 func (e *Engine12) Run(t *tape.Tape, keep bool) *sim.Result {
 	res := sim.NewResult()
 	var log tape.Log
 	log.Keep = keep
+	if t.Draw(4) == 3 {
+		return e.mapLoop(t, keep, res, &log)
+	}
 	d, err := e.driver()
 	if err != nil {
 		res.Trouble = err.Error()
